@@ -683,9 +683,16 @@ LAW(D1_table, RC, 20000, 1000000, 120, "table with row names") {
 namespace {
 
 typedef unique_ptr<DiscreteDistributionInterface> DD;
-struct DFlags { bool simple = false, invariant = false, uniform = false, gammaOffset = false, simpleRanges = false, unsortedRanges = false; int compounds = 0; };
+struct DFlags { bool truncExp = false, simple = false, invariant = false, uniform = false, gammaOffset = false, simpleRanges = false, unsortedRanges = false; int compounds = 0; };
 double dec3(vf::Ctx& c, int loMilli, int hiMilli) { return c.irange(loMilli, hiMilli) / 1000.0; }  // 3-digit decimal
 
+// m probabilities, multiples of 1/1000, each >= 0.001, summing to 1
+vector<double> genProbas(vf::Ctx& c, size_t m) {
+  vector<double> p; int left = 1000;
+  for (size_t i = 0; i + 1 < m; ++i) { int maxTake = left - static_cast<int>(m - 1 - i); int take = c.irange(1, max(1, min(maxTake, 2 * left / static_cast<int>(m - i)))); p.push_back(take / 1000.0); left -= take; }
+  p.push_back(left / 1000.0);
+  return p;
+}
 DD genLeaf(vf::Ctx& c, int maxN, ostringstream& ds, DFlags& f) {
   size_t n = static_cast<size_t>(c.irange(1, maxN));
   switch (c.below(8)) {
@@ -697,17 +704,16 @@ DD genLeaf(vf::Ctx& c, int maxN, ostringstream& ds, DFlags& f) {
     case 1: { double mu = dec3(c, -10000, 10000), sg = dec3(c, 100, 10000); ds << "Gaussian(n=" << n << ",mu=" << mu << ",sigma=" << sg << ")"; return DD(new GaussianDiscreteDistribution(n, mu, sg)); }
     case 2: { double a = dec3(c, 200, 20000), b = dec3(c, 200, 20000); ds << "Beta(n=" << n << ",alpha=" << a << ",beta=" << b << ")"; return DD(new BetaDiscreteDistribution(n, a, b)); }
     case 3: { double l = dec3(c, 100, 10000); ds << "Exponential(n=" << n << ",lambda=" << l << ")"; return DD(new ExponentialDiscreteDistribution(n, l)); }
-    case 4: { double l = dec3(c, 100, 10000), tp = dec3(c, 500, 20000); ds << "TruncExponential(n=" << n << ",lambda=" << l << ",tp=" << tp << ")"; return DD(new TruncatedExponentialDiscreteDistribution(n, l, tp)); }
+    case 4: { double l = dec3(c, 100, 10000), tp = dec3(c, 500, 20000); f.truncExp = true; ds << "TruncExponential(n=" << n << ",lambda=" << l << ",tp=" << tp << ")"; return DD(new TruncatedExponentialDiscreteDistribution(n, l, tp)); }
     case 5: { double a = dec3(c, -5000, 5000), w = dec3(c, 100, 10000); f.uniform = true; ds << "Uniform(n=" << n << ",begin=" << a << ",end=" << a + w << ")"; return DD(new UniformDiscreteDistribution(static_cast<unsigned int>(n), a, a + w)); }
     case 6: { double v = dec3(c, -5000, 5000); ds << "Constant(" << v << ")"; return DD(new ConstantDistribution(v)); }
     default: {
       f.simple = true;
-      set<int> vs; while (vs.size() < n) vs.insert(c.irange(-5000, 5000));
-      vector<double> values; for (int v : vs) values.push_back(v / 1000.0);
+      vector<double> values; int cur = c.irange(-5000, 5000);
+      for (size_t i = 0; i < n; ++i) { values.push_back(cur / 1000.0); cur += c.irange(1, 2000); }
       bool sorted = !c.oneIn(4);
       if (!sorted) for (size_t i = values.size(); i > 1; --i) swap(values[i - 1], values[c.below(i)]);
-      set<int> cuts; while (cuts.size() + 1 < n) cuts.insert(c.irange(1, 999));
-      vector<double> probas; int prev = 0; for (int k : cuts) { probas.push_back((k - prev) / 1000.0); prev = k; } probas.push_back((1000 - prev) / 1000.0);
+      vector<double> probas = genProbas(c, n);
       ds << "Simple(values=("; for (size_t i = 0; i < n; ++i) ds << (i ? "," : "") << values[i]; ds << "),probas=("; for (size_t i = 0; i < n; ++i) ds << (i ? "," : "") << probas[i]; ds << ")";
       if (c.oneIn(4)) {
         map<size_t, vector<double>> ranges;
@@ -733,8 +739,7 @@ DD genDist(vf::Ctx& c, int depth, int maxN, ostringstream& ds, DFlags& f) {
   if (k == 2) {
     ++f.compounds; size_t m = static_cast<size_t>(c.irange(1, 3)); ds << "Mixture(";
     vector<DD> v; for (size_t i = 0; i < m; ++i) { ds << (i ? "," : "") << "dist" << i + 1 << "="; v.push_back(genDist(c, depth + 1, max(1, maxN / static_cast<int>(m)), ds, f)); }
-    set<int> cuts; while (cuts.size() + 1 < m) cuts.insert(c.irange(1, 999));
-    vector<double> probas; int prev = 0; for (int q2 : cuts) { probas.push_back((q2 - prev) / 1000.0); prev = q2; } probas.push_back((1000 - prev) / 1000.0);
+    vector<double> probas = genProbas(c, m);
     ds << ",probas=("; for (size_t i = 0; i < m; ++i) ds << (i ? "," : "") << probas[i]; ds << "))";
     return DD(new MixtureOfDiscreteDistributions(v, probas));
   }
@@ -757,6 +762,7 @@ LAW(P1_distribution, RC, 6000, 200000, 150, "compound distribution (Invariant / 
   { StlOutputStreamWrapper out(&os); BppODiscreteDistributionFormat w(false); w.writeDiscreteDistribution(*d, out, aliases, written); }
   const string text = os.str();
   c.desc << " written as " << q(text);
+  if (f.truncExp) c.excludeIfKnown("C17-truncexp-read-tp0");   // the reader crashes (sanitizer) before anything can be compared
   if (f.uniform) c.excludeIfKnown("C17-uniform-not-written");
   if (f.gammaOffset) c.excludeIfKnown("C17-gamma-offset");
   DD r;
